@@ -537,8 +537,13 @@ def run_property_kani(prop, tier, harnesses, seed):
     files = sorted(set(h.file for h in harnesses))
     cache_tdir, cache_s = ensure_dep_cache()
     d, crate, err = make_scratch("%s-%s" % (prop, tier), files)
-    logdir = os.path.join(VERIF, "logs", "%s-%s" % (prop, tier))
-    shutil.rmtree(logdir, ignore_errors=True)
+    logroot = os.path.join(VERIF, "logs")
+    os.makedirs(logroot, exist_ok=True)
+    # keep the logs of the latest two runs of this property/tier only
+    old = sorted(x for x in os.listdir(logroot) if x.startswith("%s-%s." % (prop, tier)))
+    for x in old[:-1]:
+        shutil.rmtree(os.path.join(logroot, x), ignore_errors=True)
+    logdir = os.path.join(logroot, "%s-%s.%d.%d" % (prop, tier, int(time.time()), os.getpid()))
     os.makedirs(logdir, exist_ok=True)
     meta = {"scratch": d, "cache_build_s": cache_s, "logdir": logdir,
             "repo_src_sha": repo_fingerprint()}
